@@ -964,6 +964,18 @@ def exec_reduce(spec, env):
             seen.append(repr(cur))
         return [k, bool(cur._is_fully_reduced), repr(cur) == repr(final), len(set(seen)) == len([s2 for i2, s2 in enumerate(seen) if i2 == 0 or s2 != seen[i2 - 1]])]
     outs.append(rt.outcome(second_walk))
+
+    # the rules themselves, read from the running code (every node's own list of rewrite rules): none of them fires on any node of the final form
+    def no_rule_fires():
+        for node in all_nodes([final], sm):
+            rules = getattr(node, "_reducers", None)
+            if rules is None:
+                continue
+            for rule in list(rules):
+                if rule() is not None:
+                    return f"{getattr(rule, '__name__', 'a rule')} still fires on the {type(node).__name__} node {repr(node)[:120]}"
+        return True
+    outs.append(rt.outcome(no_rule_fires))
     return outs
 
 
